@@ -144,7 +144,8 @@ type sideCfg struct {
 	Outbox   []*fbb.Message
 	Policy   map[string]fbb.ProposalAnswer
 	Fail     map[string]bool
-	Password string // "" = no secure login callback
+	Password string   // "" = no secure login callback
+	Aux      []string // auxiliary addresses
 }
 
 func (c sideCfg) newHandler() *refHandler {
@@ -175,6 +176,9 @@ func (c sideCfg) newSession(h *refHandler) *fbb.Session {
 	if len(c.Motd) > 0 {
 		s.SetMOTD(c.Motd...)
 	}
+	for _, a := range c.Aux {
+		s.AddAuxiliaryAddress(fbb.AddressFromString(a))
+	}
 	if c.Password != "" {
 		pw := c.Password
 		s.SetSecureLoginHandleFunc(func(fbb.Address) (string, error) { return pw, nil })
@@ -198,8 +202,16 @@ func (c sideCfg) modelLine(input []byte) string {
 	}
 	my := strings.ToUpper(c.Mycall)
 	cb := "none"
+	fw := []string{ts(fbb.AddressFromString(my).Addr)}
+	for _, a := range c.Aux {
+		fw = append(fw, ts(fbb.AddressFromString(a).Addr))
+	}
 	if c.Password != "" {
-		cb = "some " + tl([]string{ts(c.Password) + " b0"})
+		var pws []string
+		for range fw {
+			pws = append(pws, ts(c.Password)+" b0")
+		}
+		cb = "some " + tl(pws)
 	}
 	var outbox []string
 	for _, m := range c.Outbox {
@@ -234,7 +246,7 @@ func (c sideCfg) modelLine(input []byte) string {
 		fail = append(fail, ts(k))
 	}
 	sort.Strings(fail)
-	return strings.Join([]string{"exchange", tb(c.Master), tl(motd), tl([]string{ts(fbb.AddressFromString(my).Addr)}),
+	return strings.Join([]string{"exchange", tb(c.Master), tl(motd), tl(fw),
 		ts(fbb.StdUA.Name), ts(fbb.StdUA.Version), ts(strings.ToUpper(c.Target)), ts(my), ts(c.Locator), tb(false), cb,
 		tb(c.Handler), tb(c.PrepErr), tl(outbox), tl(pol), tl(fail), tx(input)}, " ")
 }
